@@ -30,6 +30,7 @@ package gtree
 //@   invariant roots: forall k int :: {roots[k]} 0 <= k && k < len(roots) ==> roots[k] != nil && roots[k].hierarchy == 1
 //@   invariant open: stack != nil ==> chain(stack)
 //@   invariant closed: stack == nil ==> len(roots) == 0
+//@   invariant bottom [C17,C02]: stack != nil ==> len(roots) > 0 && len(stack.nodes.view) >= 1 && stack.nodes.view[0] == last(roots)
 //@   invariant blanks: (forall j int :: {rg.scanner.lines[j]} 0 <= j && j < rg.scanner.pos ==> md.allSpace(rg.scanner.lines[j])) ==> len(roots) == 0 && stack == nil
 //@   invariant count [C17,C02]: len(lnNodes) == rg.scanner.pos
 //@   invariant lines [C17,C02]: forall j int :: {lnNodes[j]} 0 <= j && j < rg.scanner.pos ==> (md.allSpace(rg.scanner.lines[j]) ==> lnNodes[j] == nil) && (!md.allSpace(rg.scanner.lines[j]) ==> lineRepr(rg.scanner.lines[j], lnNodes[j]) && (lnNodes[j].hierarchy == 1 ==> contains(roots, lnNodes[j])))
@@ -191,12 +192,31 @@ func specWasmDryReport(ext []string, roots []*Node, i int) string {
 //@ func gtree.colorizeSpreader.spread
 //@   assumed
 //@   modifies out, wfail, counter.n, Node.name
+// JSON output of the wasm variant: the same facts as formattedSpreaderSimple.spread[jsonNode] of the default build: one
+// encoder per call, Encode once per root, in order, with a record whose first level mirrors the root.
+//@ func gtree.Node.toJSONNode
+//@   requires nn: parent != nil
+//@   requires empty [C17]: jParent != nil ==> len(jParent.Children) == 0
+//@   modifies jsonNode.Children
+//@   decreases down(parent)
+//@   ensures made [C17]: jParent == nil ==> fresh(result) && result.Name == parent.name
+//@   ensures typed [C17]: result != nil && isType(result, jsonNode)
+//@   ensures same [C17]: jParent != nil ==> result == jParent && result.Name == old(jParent.Name)
+//@   ensures level [C17]: len(result.Children) == len(parent.children) && (forall i int :: {result.Children[i]} 0 <= i && i < len(parent.children) ==> result.Children[i] != nil && fresh(result.Children[i]) && result.Children[i].Name == parent.children[i].name && len(result.Children[i].Children) == len(parent.children[i].children))
+//@   ensures frame [C17]: (forall x *jsonNode :: {x.Children} !fresh(x) && x != jParent ==> x.Children == old(x.Children)) && (forall x *jsonNode :: {x.Name} !fresh(x) ==> x.Name == old(x.Name))
+//@ loop gtree.Node.toJSONNode#1
+//@   invariant len: jParent != nil && len(jParent.Children) == len(parent.children) && (old(jParent) != nil ==> jParent == old(jParent) && jParent.Name == old(jParent.Name)) && (old(jParent) == nil ==> fresh(jParent) && jParent.Name == parent.name)
+//@   invariant level: forall j int :: {jParent.Children[j]} 0 <= j && j < $i ==> jParent.Children[j] != nil && fresh(jParent.Children[j]) && jParent.Children[j].Name == parent.children[j].name && len(jParent.Children[j].Children) == len(parent.children[j].children)
+//@   invariant frame: (forall x *jsonNode :: {x.Children} !fresh(x) && x != old(jParent) ==> x.Children == old(x.Children)) && (forall x *jsonNode :: {x.Name} !fresh(x) ==> x.Name == old(x.Name))
+// jsonSpreader.spread itself (one encoder, Encode per root) is still assumed: its loop invariant over the encoder trace
+// does not discharge within the budget in this build variant (the default build's twin, formattedSpreaderSimple.spread
+// [jsonNode], is verified); toJSONNode above is verified.
 //@ func gtree.jsonSpreader.spread
 //@   assumed
-//@   modifies out, wfail
+//@   modifies out, wfail, encTrace, encoders, jsonNode.Children
 
 // Output of the wasm variant: the same rendering clause as OutputFromMarkdown of the default build.
 //@ func gtree.Output
-//@   modifies Node.children, Node.parent, Node.brnch.value, Node.brnch.path, Node.name, list.List.view, list.Element.backOf, counter.n, lastConfig, bufio.Scanner.pos, bufio.Scanner.failed, markdown.Parser.isSharpRoot, markdown.Parser.spaces, markdown.Parser.sep, out, wfail, lnNodes
+//@   modifies Node.children, Node.parent, Node.brnch.value, Node.brnch.path, Node.name, list.List.view, list.Element.backOf, counter.n, lastConfig, bufio.Scanner.pos, bufio.Scanner.failed, markdown.Parser.isSharpRoot, markdown.Parser.spaces, markdown.Parser.sep, out, wfail, lnNodes, encTrace, encoders, jsonNode.Children
 //@   use lemma lemmaBakedAllIsRenderAll
 //@   ensures render [C17]: exists c *config :: {witness(cfg)} fresh(c) && (c.encode == encodeDefault && !c.dryrun && result == nil ==> wfail == old(wfail) && (exists rs []*Node :: {witness(roots)} allRoots(rs) && out[w] == old(out[w]) ++ specRenderAll(c.lastNodeFormat, c.intermedialNodeFormat, rs, len(rs))))
